@@ -6,6 +6,7 @@
   Frost.Proofs.NoPanic.
 -/
 import Frost.Proofs.NoPanic
+import Frost.Proofs.NoPanicRerand
 import Frost.Model.Resume
 
 set_option linter.unusedSectionVars false
@@ -117,6 +118,22 @@ theorem taproot_entry_points_no_panic (B : Base F E) (P : TrParams F E) (pkg : S
     (signWithTweak B P pkg nonces kp root).NoPanic ∧ (aggregateWithTweak B P pkg shares pkp root).NoPanic :=
   ⟨sign_np _ (Frost.hooks_taproot B P) pkg nonces _,
    aggregateCustom_np _ (Frost.hooks_taproot B P) pkg shares _ .FirstCheater⟩
+
+/-- **the re-randomized entry points**: a randomizer seed of ANY length (it is a byte string a
+    coordinator sends), any signing package, any explicit randomizer, every cheater-detection
+    mode; also the package-based randomizer of the deprecated coordinator API -/
+theorem rerandomized_entry_points_no_panic (S : Suite F E) (H : HooksNoPanic S)
+    (pkg : SigningPackage F E) (nonces : SigningNonces F E) (kp : KeyPackage F E) (seed : Bytes)
+    (r : F) (shares : List (F × F)) (pkp : PublicKeyPackage F E) (mode : CheaterDetection)
+    (p : RandomizedParams F E) (hdr : Bytes) :
+    (randomizerRegenerate S seed pkg.commitments).NoPanic ∧
+    (signWithRandomizerSeed S pkg nonces kp seed).NoPanic ∧
+    (signWithRandomizer S pkg nonces kp r).NoPanic ∧
+    (aggregateRandomized S pkg shares pkp mode p).NoPanic ∧
+    (randomizerFromScalarAndPackage S hdr r pkg).NoPanic :=
+  ⟨randomizerRegenerate_np S seed _, signWithRandomizerSeed_np S H pkg nonces kp seed,
+   signWithRandomizer_np S H pkg nonces kp r, aggregateRandomized_np S H pkg shares pkp mode p,
+   randomizerFromScalarAndPackage_np S hdr r pkg⟩
 
 /-! ## 4. decoders -/
 
